@@ -79,7 +79,10 @@ class TreeOracle(Monitor):
                         lenient = True  # destination resolves to a directory: undefined, not generated
                     else:
                         parent = _norm(os.path.dirname(p) or ".")
-                        if (parent == "." or ("d", parent) in self.tree) and "create_file" not in rej_ops:
+                        # (a name with a NUL byte cannot exist on the host file system: the native filestore refuses it)
+                        if (parent == "." or ("d", parent) in self.tree) and "create_file" not in rej_ops and not (
+                            "\x00" in p and c.vfs == "native"
+                        ):
                             self.tree[("f", p)] = b""
                 elif nm == "file_segment_recv":
                     p = self.cur.get(key)
